@@ -57,6 +57,9 @@ def foreign_constant(name):
     return obj
 
 
+_NIL_TURN = [0]
+
+
 def _proper_list(t):
     out = []
     while t["t"] == "c" and t["n"] == "." and len(t["a"]) == 2:
@@ -69,8 +72,11 @@ def build(yp, t, env):
     if k == "a":
         if FOREIGN and t["n"] not in ("[]", "true", "fail"):
             return foreign_constant(t["n"])
-        if t["n"] == "[]" and len(env) % 2 == 0:
-            return yp.ATOM_NIL          # the documented empty list object (what makelist and compiled `[]` use)
+        if t["n"] == "[]":
+            # alternately the documented empty-list object (what makelist and compiled `[]` use) and the atom of that name
+            _NIL_TURN[0] += 1
+            if _NIL_TURN[0] % 2:
+                return yp.ATOM_NIL
         return yp.atom(t["n"])
     if k == "i":
         return int(t["n"])
